@@ -246,10 +246,12 @@ Alpha profileFor(const std::string& mode, char level) {
       a.kinds = { 0, 1, 2, 3 }; a.defs = range(14); a.exprDefs = range(14); a.names = { 0, 1, 2, 3, 4 };
       a.termTexts = { 0, 1, 2, 3, 4 }; a.defTexts = { 0, 1, 2, 3, 4 }; a.convs = { 0, 2 }; a.bulks = { 0, 1 };
       a.recUid = { 0 }; a.recAlias = { 0, 5 }; a.recKind = { 0, 1 };   // single-record InsertCopy (its own code path: Schema::Insert)
+      if (mode == "incr") a.seedSchemas = 5;
     } else if (level == 'M') { // one representative per shortcut
       a.kinds = { 0, 1, 2 }; a.defs = { 0, 1, 2, 4, 12 }; a.exprDefs = { 1, 2, 3, 4, 6, 9, 13 }; a.names = { 0, 2 };
       a.termTexts = { 2, 3 }; a.defTexts = { 3 }; a.convs = { 2 }; a.bulks = { 0 }; a.seedSchemas = 4;
       a.recUid = { 0 }; a.recAlias = { 5 }; a.recKind = { 0, 1 };
+      if (mode == "incr") a.seedSchemas = 5;
     } else {                   // 'N': deep and narrow
       a.kinds = { 1 }; a.defs = { 1, 4 }; a.exprDefs = { 1, 3, 4 }; a.names = { 2 }; a.subst = { 0 };
       a.termTexts = { 3 }; a.defTexts = {}; a.convs = {}; a.bulks = {}; a.move = false; a.seedSchemas = 2;
@@ -319,6 +321,7 @@ struct SchemaSys {
         case 0: break;
         case 1: f.Emplace(CstType::base); f.Emplace(CstType::term, "X1"); f.Emplace(CstType::term, "D1" + U + "X1"); f.Emplace(CstType::axiom, "\xE2\x88\x80" "a\xE2\x88\x88X1 a\xE2\x88\x88" "D2"); break;
         case 2: f.Emplace(CstType::base); f.Emplace(CstType::term, "D2" + U + "X1"); f.Emplace(CstType::term, "X9"); break;   // forward reference + incorrect member
+        case 4: f.Emplace(CstType::base); f.Emplace(CstType::term, "D3"); f.Emplace(CstType::term, "D1"); f.Emplace(CstType::term, "D2"); break;   // definition cycle of three (repairable at any member)
         default: { const auto x = f.Emplace(CstType::base); const auto d = f.Emplace(CstType::term, "X1");                      // term texts reference each other
           f.SetTermFor(x, "@{D1|nomn}"); f.SetTermFor(d, "@{X1|nomn} b"); f.SetDefinitionFor(d, "@{X1|nomn}"); f.SetConventionFor(x, "X1 D1 \xCE\xBE"); break; }
       }
